@@ -66,34 +66,54 @@ type run struct {
 	chanName    map[chan int]string
 	lastCreated string
 
-	p        *mpb.Progress
-	cancel   context.CancelFunc
-	wcProto  map[string]*decor.WC
-	uwg      *sync.WaitGroup
-	uwgDone  map[int]bool
-	closing  bool // some Wait / Shutdown has passed its barrier and is cancelling the container
-	lsDone   bool // the refresh listener has passed its last gate and closes the done channel
-	manual   chan interface{}
-	delay    chan struct{}
-	notif    chan interface{}
-	stop     chan struct{}
-	clDone   []bool
-	clPC     []int
-	clInCall []bool
-	goidCl   map[string]int
-	outW     *outRec
-	dbg      *dbgRec
-	frames   int
-	cycles   int // completed render cycles (a cycle over an empty heap writes nothing)
-	addsLeft int
-	rng      *rand.Rand
+	p             *mpb.Progress
+	cancel        context.CancelFunc
+	wcProto       map[string]*decor.WC
+	manualClosed  bool
+	noMoreRefresh chan struct{}
+	refreshers    sync.WaitGroup
+	uwg           *sync.WaitGroup
+	uwgDone       map[int]bool
+	closing       bool // some Wait / Shutdown has passed its barrier and is cancelling the container
+	lsDone        bool // the refresh listener has passed its last gate and closes the done channel
+	manual        chan interface{}
+	delay         chan struct{}
+	notif         chan interface{}
+	stop          chan struct{}
+	clDone        []bool
+	clPC          []int
+	clInCall      []bool
+	goidCl        map[string]int
+	outW          *outRec
+	dbg           *dbgRec
+	frames        int
+	cycles        int // completed render cycles (a cycle over an empty heap writes nothing)
+	addsLeft      int
+	rng           *rand.Rand
 }
 
 // sink, when set by the worker, receives every event as soon as it is recorded, so that
 // the events of a scenario that crashes the process are not lost.
 var sink func(Event)
 
+// lastEvent (number of events recorded so far) and currentRun serve the worker's watchdog: a library goroutine
+// that spins keeps the bubble from ever coming to rest, so the scheduler itself cannot notice it.
+var (
+	lastEvent  atomic.Int64
+	currentRun atomic.Pointer[run]
+)
+
+// spinning is called by the watchdog, from outside the bubble, when nothing has been recorded for a long real time.
+func (r *run) spinning() {
+	gl := libGoroutines()
+	r.rec(Event{"ev": "hang", "kind": "spinning", "pending": r.pendingCalls(), "parked": labels(r.snapshot()), "goroutines": gl,
+		"infmt": strings.Contains(strings.Join(gl, " "), "WC.Format"),
+		"wpend": strings.Contains(strings.Join(r.pendingCalls(), " "), ":write:")})
+	r.rec(Event{"ev": "end"})
+}
+
 func (r *run) rec(e Event) {
+	lastEvent.Add(1) // (a counter, not a time: inside the bubble the clock is a fake one)
 	r.mu.Lock()
 	r.seq++
 	e["seq"] = r.seq
@@ -323,6 +343,9 @@ func (d *probeDecor) Decor(s decor.Statistics) (string, int) {
 		need = d.spec.Needs[d.calls%n]
 	}
 	d.calls++
+	if need < 0 {
+		return d.Format("") // a decorator with nothing to show in this frame still takes part in its column's exchange
+	}
 	return d.Format("(" + d.name + strings.Repeat("x", need) + ")")
 }
 
@@ -483,6 +506,10 @@ func (r *run) mkDecor(bar, side string, idx, col int, spec DecorSpec) decor.Deco
 			d = decor.OnComplete(d, "("+p.name+"!C)")
 		case "onabort":
 			d = decor.OnAbort(d, "("+p.name+"!A)")
+		case "oncomplete0":
+			d = decor.OnComplete(d, "") // the decorator is cleared on completion
+		case "onabort0":
+			d = decor.OnAbort(d, "")
 		case "either":
 			d = decor.OnCompleteOrOnAbort(d, "("+p.name+"!E)")
 		case "oncompletemeta":
@@ -582,7 +609,7 @@ func (r *run) eligible(g *gate) bool {
 		return true
 	case "wait":
 		return r.addsLeft == 0
-	case "write", "shutdown", "cancel", "refresh", "delayend", "nop", "pause":
+	case "write", "shutdown", "cancel", "refresh", "closerefresh", "delayend", "nop", "pause":
 		return true
 	}
 	if op.B != "" {
@@ -885,13 +912,37 @@ func (r *run) exec(c, i int, op *Op) {
 		}
 	case "refresh":
 		r.rec(inv)
+		r.mu.Lock()
+		closed := r.manualClosed
+		if !closed {
+			r.refreshers.Add(1)
+		}
+		r.mu.Unlock()
+		if closed {
+			break // the producer has closed its channel: nothing more can be requested
+		}
 		// fire and forget: once the container is done nobody receives any more
 		go func() {
+			defer r.refreshers.Done()
 			select {
 			case r.manual <- time.Now():
 			case <-r.stop:
+			case <-r.noMoreRefresh:
 			}
 		}()
+	case "closerefresh":
+		// the producer of refresh requests closes its channel (every request still on its way is withdrawn first):
+		// from now on the container is refreshed as fast as it can draw
+		r.rec(inv)
+		r.mu.Lock()
+		closed := r.manualClosed
+		r.manualClosed = true
+		r.mu.Unlock()
+		if !closed && r.manual != nil {
+			close(r.noMoreRefresh)
+			r.refreshers.Wait()
+			close(r.manual)
+		}
 	case "delayend":
 		r.rec(inv)
 		if r.delay != nil {
@@ -1229,6 +1280,9 @@ func RunScenario(t *testing.T, sc *Scenario) (events []Event, fatal string) {
 	r := &run{sc: sc, barPtr: map[uintptr]string{}, bars: map[string]*barInfo{}, chanName: map[chan int]string{},
 		goidCl: map[string]int{}}
 	r.cond = sync.NewCond(&r.mu)
+	currentRun.Store(r)
+	lastEvent.Add(1)
+	defer currentRun.Store(nil)
 	r.rng = rand.New(rand.NewSource(sc.Sched.Seed))
 	r.clDone = make([]bool, len(sc.Clients))
 	r.clPC = make([]int, len(sc.Clients))
@@ -1282,6 +1336,7 @@ func RunScenario(t *testing.T, sc *Scenario) (events []Event, fatal string) {
 				opts = append(opts, mpb.WithAutoRefresh())
 			case "manual":
 				r.manual = make(chan interface{})
+				r.noMoreRefresh = make(chan struct{})
 				opts = append(opts, mpb.WithManualRefresh(r.manual))
 				if sc.Cfg.AutoToo {
 					opts = append(opts, mpb.WithAutoRefresh())
